@@ -11,9 +11,12 @@ RULE = ("TLC enumerates scenario descriptors PER COMPONENT exhaustively (obstacl
         "built through public constructors (gamma), written with CommonRoadFileWriter(decimal_precision=d), read back "
         "with CommonRoadFileReader, both object graphs are projected to leaves through public accessors (alpha) and "
         "Trace_Codec compares the read-back leaves with Codec!Expected(\"xml\", desc): discrete leaves identical, real "
-        "leaves in class exact / within_tol (|x'-x| < 10^-d, Fraction arithmetic).  distinct_nontrivial = distinct "
+        "leaves in class exact / within_tol (|x'-x| < 10^-d, Fraction arithmetic); EVERY differing leaf of an event is "
+        "reported (one clause each, at most 8).  distinct_nontrivial = distinct "
         "(descriptor, d).")
-ASSUMPTIONS = ["initial states are InitialState instances populating a subset of its six attributes (constructor type)",
+ASSUMPTIONS = ["trajectory states with interval time steps are not generated: Trajectory() rejects them (public constructor)",
+               "a stop line without points reads back from XML with points at the lanelet end (2020a); their values are not asserted",
+               "initial states are InitialState instances populating a subset of its six attributes (constructor type)",
                "trajectory states have exact time steps t0, t0+1, ... (Trajectory documents contiguity)",
                "a traffic-sign element uses the enum class of the scenario's country (the format stores only the value)",
                "ids of one kind are listed in ascending order; id sets and enum sets are compared as sets",
@@ -27,7 +30,9 @@ def model_check(ctx):
 
 
 def cases(ctx):
-    return codec.gen_cases(ctx, "xml")
+    # virtual=True (known finding C01-virtual-attribute) only in MC_Codec!VirtualQuota: the rest of the space is compared
+    # with virtual=False so that the known finding does not mask other leaves
+    return codec.gen_cases(ctx, "xml", quota=True)
 
 
 def execute(case):
